@@ -145,7 +145,7 @@ PROPS["C10"] = dict(
 
 PROPS["C11"] = dict(
     model="Leak.v",
-    harness=[dict(name="main", n_quick=66, n_thorough=140, shards_quick=1, shards_thorough=3, coq=False, timeout=2400)],
+    harness=[dict(name="main", n_quick=70, n_thorough=140, shards_quick=1, shards_thorough=3, coq=False, timeout=2400)],
     trusted=_GOMINI_TRUSTED + ["'within bounded time' is modelled as 'within a bounded number of steps'; wall-clock behaviour is runtime: the harness measures goroutine counts 400ms and 550ms after the search ended, each case in its own process",
                               "the cancel model treats post-cancel channel operations as completing at once (select with ctx.Done), and assumes relation bodies have no call on their spine (guarded)"],
     assumptions=["goal evaluations handed to the concurrent combinators terminate"],
